@@ -104,11 +104,13 @@ func (env *Environment) NotifyEvent(e event.DeviceEvent) {
 
 func newEnvironment(userVars map[string]string, newId uid.ID) (env *Environment, err error) {
 	envId := newId
+	// incomingEvents is buffered: NotifyEvent does not block, and two hook tasks of one trigger
+	// may well terminate while the collector in runTasksAsHooks is busy with the first of them
 	env = &Environment{
 		id:             envId,
 		workflow:       nil,
 		ts:             time.Now(),
-		incomingEvents: make(chan event.DeviceEvent),
+		incomingEvents: make(chan event.DeviceEvent, 1024),
 		// Every Environment instantiation performs a ConfSvc query for defaults and vars
 		// these key-values stay frozen throughout the lifetime of the environment
 		GlobalDefaults: gera.MakeMapWithMap(the.ConfSvc().GetDefaults()),
@@ -829,6 +831,15 @@ func (env *Environment) runTasksAsHooks(hooksToTrigger task.Tasks) (errorMap map
 
 	if len(hooksToTrigger) == 0 {
 		return
+	}
+
+	// what arrived while no hooks were being collected cannot belong to the ones triggered below
+	for drained := false; !drained; {
+		select {
+		case <-env.incomingEvents:
+		default:
+			drained = true
+		}
 	}
 
 	timeoutCh := make(chan string)
